@@ -162,7 +162,7 @@ def check_tissue(res, spec, exprs, label, rng, equilibrium):
         res.count("internal interfaces do not connect the retained cells (least-squares clause skipped)")
     # correlation with analytic Young-Laplace pressures
     if equilibrium and connected and spec["meta"].get("mobius") and min(len(be.vertices) for be in internal) >= 5 and len(adj) >= 6:
-        rows, rh = [], []
+        rows, rh, rh_turn = [], [], []
         for be, t in zip(internal, T1):
             ids = be.get_vertices_ids()
             cc = circle_through(pos[ids[0]], pos[ids[len(ids) // 2]], pos[ids[-1]])
@@ -179,13 +179,27 @@ def check_tissue(res, spec, exprs, label, rng, equilibrium):
             row[keys.index(other)] = -1
             rows.append(row[kept_cols])
             rh.append(t * kap)
+            # the exact right-hand side of forsys' own equation: tension x total turning of the sampled arc
+            chord = math.hypot(pos[ids[-1]][0] - pos[ids[0]][0], pos[ids[-1]][1] - pos[ids[0]][1])
+            theta = 2 * math.asin(min(1.0, chord * kap / 2)) if kap > 0 else 0.0
+            rh_turn.append(t * theta * (len(ids) - 2) / (len(ids) - 1))
         ana = ls_zero_sum(np.array(rows), np.array(rh))
+        ana_turn = ls_zero_sum(np.array(rows), np.array(rh_turn))
         got = P1[kept_cols]
         if np.std(ana) > 1e-12 and np.std(got) > 1e-12:
             corr = float(np.corrcoef(ana, got)[0, 1])
+            corr_turn = float(np.corrcoef(ana_turn, got)[0, 1]) if np.std(ana_turn) > 1e-12 else 0.0
             res.extra.setdefault("correlations", []).append(round(corr, 4))
             if corr < 0.9:
-                bad.append(f"correlation with the analytic Young-Laplace pressures is {corr:.3f} < 0.9")
+                msg = f"correlation with the analytic Young-Laplace pressures is {corr:.3f} < 0.9"
+                if corr_turn >= 0.99:
+                    # the reported pressures solve forsys' own equations (tension x turning angle) to correlation >= 0.99: the shortfall is
+                    # entirely the difference between turning angle (= length x curvature) and curvature
+                    res.fail("oracle", msg + f" although the pressures agree with the exact solution of the equations 'tension x total turning' "
+                             f"(correlation {corr_turn:.4f}): interfaces of unequal length weigh the curvature differently", replay,
+                             tag="D24-turning-is-not-curvature")
+                else:
+                    bad.append(msg + f" (and {corr_turn:.3f} with the solution of the turning-angle equations)")
     for b in bad[:3]:
         res.fail("oracle", b, replay)
     res.case((tuple(tuple(x[1:]) for x in spec["vertices"][:5]), len(spec["cells"]), tuple(spec["meta"].get("flipped", []))), nontrivial=len(internal) >= 3)
